@@ -68,6 +68,11 @@ def mkSetter (specs : List (Key × Json)) : Except String (Key → List (Key × 
               | some (.int n) => go r (acc + n)
               | some _ => .other "TypeError"
         go deps 1)
+    | "indirect" =>
+      let dep ← keyOfJson (← s.getObjVal? "dep")
+      pure (k, fun (m : List (Key × Val)) => match Val.dlookup m dep with
+        | none => SetterResult.keyError
+        | some _ => SetterResult.ok (.int 1))
     | "raise" => pure (k, fun _ => SetterResult.other "boom")
     | "keyerr" => pure (k, fun _ => SetterResult.keyError)
     | "const" =>
